@@ -28,6 +28,12 @@ func computeHash(pkg *PackageSpec) (cache.ActionID, error) {
 		if err == nil {
 			if idx := strings.IndexRune(id, '/'); idx > -1 {
 				fmt.Fprintf(key, "files %s\n", id[:idx])
+				// With -trimpath the build ID does not depend on the
+				// directory of the package, but cached diagnostics
+				// carry absolute file names.
+				for _, f := range pkg.CompiledGoFiles {
+					fmt.Fprintf(key, "name %s\n", f)
+				}
 				success = true
 			}
 		}
